@@ -688,6 +688,22 @@ pub fn run(ctx: &Ctx, prop: &str) -> Report {
         rep
     });
     stage("glide.mixed_histories", r, &mut rep, t0);
+    if !small {
+        // more than 2^16 set_time calls on one processor (alternating far apart, a few samples in between)
+        let t0 = std::time::Instant::now();
+        let mut r = Report::new();
+        let fs = 8000.0f32;
+        let mut ops = Vec::new();
+        for k in 0..70_000u32 {
+            ops.push(Op::SetTime(if k % 2 == 0 { 0.05 } else { 0.2 }));
+            ops.push(Op::Hold(if k % 6 < 3 { 1.0 } else { -1.0 }, 3));
+        }
+        ops.push(Op::SetTime(0.5));
+        ops.push(Op::Hold(2.0, 5000));
+        run_and_record(&History { fs, ops }, prop, &mut r, false);
+        r.count("glide.many_set_time_histories", 1);
+        stage("glide.many_set_time_calls", r, &mut rep, t0);
+    }
     if prop == "C14" {
         let t0 = std::time::Instant::now();
         let mut r = Report::new();
